@@ -1,0 +1,16 @@
+//go:build verif
+
+package fluentdforward
+
+import (
+	"github.com/relex/gotils/logger"
+	"github.com/relex/slog-agent/output/baseoutput"
+)
+
+// VerifOpenForwardConnection exposes openForwardConnection: it opens the real Fluentd Forward connection
+// (TCP or TLS, optional handshake) that NewClientWorker hands to baseoutput.NewClientWorker.
+// Only compiled with the "verif" build tag; the verification harness wraps the returned connection to
+// observe SendChunk / ReadChunkAck / Close calls of the real client worker.
+func VerifOpenForwardConnection(parentLogger logger.Logger, config UpstreamConfig) (baseoutput.ClosableClientConnection, error) {
+	return openForwardConnection(parentLogger, config)
+}
